@@ -256,11 +256,11 @@ pub fn run(run: &mut Run) -> Finish {
     let tier = run.ctx.tier;
     let g = grid();
     let at = adj_tokens();
-    let omax = 3usize;
+    let omax = tier.pick(3usize, 4);
     let amax = tier.pick(2usize, 3);
     let no = n_multisets_upto(g.len(), omax);
     let na = n_multisets_upto(at.len(), amax);
-    run.par_slice("grid 2x5: every multiset of <= 3 original positions x every multiset of <= 2/3 adjustment tokens (10 original positions x 6 displacements), every insertion order of the adjustment", 1, no * na, |idx, l| {
+    run.par_slice("grid 2x5: every multiset of <= 3/4 original positions x every multiset of <= 2/3 adjustment tokens (10 original positions x 6 displacements), every insertion order of the adjustment", 1, no * na, |idx, l| {
         let k = idx & ((1 << 40) - 1);
         let orig: Vec<Pos> = multiset_upto_unrank(g.len(), omax, k % no).iter().map(|&i| g[i]).collect();
         let aset: Vec<(Pos, Pos)> = multiset_upto_unrank(at.len(), amax, k / no).iter().map(|&i| at[i]).collect();
@@ -326,6 +326,27 @@ pub fn run(run: &mut Run) -> Finish {
             l.case(!orig.is_empty(), h64(&("g3", orig.len(), aset.iter().map(|a| (a.0 .0, a.1 .0)).collect::<Vec<_>>())));
         }
     });
+    // thorough only: the 2x3 grid with exactly four adjustment tokens in every order
+    if tier == Tier::Thorough {
+        let na4 = n_multisets(at3.len() as u64, 4);
+        run.par_slice("grid 2x3: every multiset of <= 2 original positions x every multiset of exactly 4 adjustment tokens, every insertion order", 4, no3 * na4, |idx, l| {
+            let k = idx & ((1 << 40) - 1);
+            let orig: Vec<Pos> = multiset_upto_unrank(g3.len(), 2, k % no3).iter().map(|&i| g3[i]).collect();
+            let aset: Vec<(Pos, Pos)> = multiset_unrank(at3.len(), 4, k / no3).iter().map(|&i| at3[i]).collect();
+            let mut seen = std::collections::HashSet::new();
+            for (pi, perm) in permutations(4).iter().enumerate() {
+                let adj: Vec<(Pos, Pos)> = perm.iter().map(|&i| aset[i]).collect();
+                if !seen.insert(adj.clone()) {
+                    continue;
+                }
+                let c = Case { orig: orig.clone(), adj };
+                if let Some((sig, what)) = check_case(&c) {
+                    l.violation_sub(idx, pi as u64, Viol::new(format!("C10/{sig}"), what, json!({"case": serde_json::to_value(&c).unwrap()})));
+                }
+                l.case(!orig.is_empty(), h64(&("g4", orig.len(), aset.iter().map(|a| (a.0 .0, a.1 .0)).collect::<Vec<_>>())));
+            }
+        });
+    }
     Finish {
         level: "exploration",
         rule: "E1: every pair (original map, adjustment map) of the stated grids, the adjustment inserted in every order, composed by the real adjust_mappings. Oracle RCompose: stretches = [position, next position or end of line); for every non-empty overlap of an original stretch and an adjustment stretch exactly one token at the overlap start moved by the adjustment token's displacement, carrying the original's payload unchanged; nothing else; result ordered; sources/names/contents untouched. Ties: among tokens sharing one position only one has a non-empty stretch and the statement does not say which, so the result is accepted if it equals RCompose under some choice. Violations are signed by clause (missing-token, wrong-position, extra-token/<side>/stretch-empty|non-empty, not-ordered, payload-altered, metadata-changed). Distinct by construction; non-trivial = both maps non-empty; class = sizes, duplicate positions on either side, lines involved, multi-line displacement.".into(),
